@@ -18,7 +18,8 @@ AddrMax == 65535
 UnitBits == 8
 BranchPCs == {4096, 40000}
 
-NMOS == {"6502", "65SC02", "65C02", "W65C02S"}
+\* MELPS740: Mitsubishi 740 family, only its 6502-compatible base set is tabulated (used for the adjacency dimension)
+NMOS == {"6502", "65SC02", "65C02", "W65C02S", "MELPS740"}
 CMOS == {"65SC02", "65C02", "W65C02S"}
 ROCK == {"65C02", "W65C02S"}
 WDC  == {"W65C02S"}
@@ -44,6 +45,9 @@ ModeSpec(m) ==
     [] m = "zpyo"  -> [args |-> <<Op(1), Lit("Y")>>, flds |-> <<ZpOnly>>, tail |-> B2]
     [] m = "abs"   -> [args |-> <<Op(1)>>, flds |-> <<AbsSib>>, tail |-> B3]
     [] m = "abso"  -> [args |-> <<Op(1)>>, flds |-> <<AbsOnly>>, tail |-> B3]
+    \* assembler spelling "<addr" (force zero page) on a mode that has no zero-page form: see Unjudged
+    [] m = "abso<" -> [args |-> <<Arg("<", 1, "")>>, flds |-> <<FWindow(0, 255, 16)>>, tail |-> B3]
+    [] m = "absyo<" -> [args |-> <<Arg("<", 1, ""), Lit("Y")>>, flds |-> <<FWindow(0, 255, 16)>>, tail |-> B3]
     [] m = "absx"  -> [args |-> <<Op(1), Lit("X")>>, flds |-> <<AbsSib>>, tail |-> B3]
     [] m = "absy"  -> [args |-> <<Op(1), Lit("Y")>>, flds |-> <<AbsSib>>, tail |-> B3]
     [] m = "absxo" -> [args |-> <<Op(1), Lit("X")>>, flds |-> <<AbsOnly>>, tail |-> B3]
@@ -124,16 +128,34 @@ Rockwell ==
           F("BBR" \o BitNames[n + 1], "zprel", n * 16 + 15, ROCK), F("BBS" \o BitNames[n + 1], "zprel", n * 16 + 143, ROCK)}
          : n \in 0..7}
 
-Forms == Group1 \cup Group2 \cup Misc \cup Cmos \cup Rockwell
+ForcedZp == {[F(G1[i][1], "absyo<", G1[i][2] * 32 + 1 + 24, NMOS) EXCEPT !.alias = TRUE] : i \in 1..8}
+            \cup {[F("JMP", "abso<", 76, NMOS) EXCEPT !.alias = TRUE], [F("JSR", "abso<", 32, NMOS) EXCEPT !.alias = TRUE]}
+
+Forms == Group1 \cup Group2 \cup Misc \cup Cmos \cup Rockwell \cup ForcedZp
          \cup {F(Implied[i][1], "imp", Implied[i][2], NMOS) : i \in 1..Len(Implied)}
          \cup {F(Branches[i][1], "rel", Branches[i][2], NMOS) : i \in 1..Len(Branches)}
 
 \* NMOS anomaly documented by MOS: JMP (xxFF) fetches the high byte from xx00; an assembler may refuse it on the
 \* NMOS part.  The CMOS parts fixed this, there the statement is plainly legal.
-Skipped(cpu, form, ops) == FALSE
-Unjudged(cpu, form, ops) == cpu = "6502" /\ form.id = "JMP ind" /\ ops[1] % 256 = 255
+\* the 740 family has its own zero-page indirect jump JMP ($zz) (opcode B2): outside the tabulated common subset
+Skipped(cpu, form, ops) == cpu = "MELPS740" /\ form.id = "JMP ind" /\ ops[1] < 256
+\* "<addr" where the instruction has no zero-page form: an assembler may refuse it; if it accepts, the only
+\* encoding the instruction set offers is the three-byte absolute one (low byte, 00)
+Unjudged(cpu, form, ops) ==
+  \/ cpu \in {"6502", "MELPS740"} /\ form.id = "JMP ind" /\ ops[1] % 256 = 255
+  \/ (Len(form.args) >= 1 /\ form.args[1].pre = "<")
+
+\* Named assembler behaviour for the Mitsubishi 740 family only (usage cautions of the MELPS 740 software manual
+\* turned into automatic NOPs): PLP is followed by a NOP; SEC / CLC / CLD directly after ADC / SBC are preceded by a
+\* NOP.  Every other 65xx CPU is context free.
+After(cpu, prev, form, units) ==
+  IF cpu # "MELPS740" THEN units
+  ELSE IF form.mn = "PLP" THEN units \o <<234>>
+  ELSE IF prev.mn \in {"ADC", "SBC"} /\ form.mn \in {"SEC", "CLC", "CLD"} THEN <<234>> \o units
+  ELSE units
 
 \* 151 documented NMOS opcodes; CMOS base adds 8 (zp) + BRA PHX PHY PLX PLY (5) + STZ 4 + TRB 2 + TSB 2 + BIT 3 +
 \* INC A, DEC A (2) + JMP (abs,X) = 27; Rockwell adds 32; WDC adds 2
 DefinedCount(cpu) == CASE cpu = "6502" -> 151 [] cpu = "65SC02" -> 178 [] cpu = "65C02" -> 210 [] cpu = "W65C02S" -> 212
+                      [] cpu = "MELPS740" -> 151      \* the tabulated 6502-compatible subset
 =============================================================================
